@@ -258,6 +258,20 @@ def handle (op : String) (args : List Sexp) : Option Ans :=
         match readWith cfg c total with
         | .ok (_, evs) => if sameDigest (accept cfg t) evs then pass else fail "replay-masked"
         | _ => fail "read")
+  | "oracle-replay-masked-full", [bytes, frame, cfg] => do
+    -- the property as stated (replay = read for every visitor), without the restriction to the configurations on
+    -- which the code agrees with it: fails where the reader ignores `fields` / `methods` (open finding) and where
+    -- `Code::accept` ignores the stack map / local variable interests
+    let total ← byteLen bytes
+    let c ← toFrame? frame
+    let cfg ← toCfg? cfg
+    pure (if !inDomain [c] total then ood else
+      match build (fullEvents c) with
+      | none => ood
+      | some t =>
+        match readWith cfg c total with
+        | .ok (_, evs) => if sameDigest (accept cfg t) evs then pass else fail "replay-masked"
+        | _ => fail "read")
   | _, _ => none
 
 end C17
